@@ -1052,6 +1052,15 @@ class World(object):
                             f.set_exception(e)
                     else:
                         f.set_exception(e)
+                elif kind == "futvalue":
+                    # the VALUE of this future is itself a future (done / failed / pending): it must be handed on as a value
+                    v = self.futs[op[1] + ".val"] = RecFuture(self, op[1] + ".val")
+                    st = op[3] if len(op) > 3 else "done"
+                    if st == "done":
+                        v.set_result(("inner", op[1]))
+                    elif st == "err":
+                        v.set_exception(EXC["E2"]())
+                    f.set_result(v)
                 elif kind == "fn":
                     f.set_result(self.fn(op[1] + ".fn", op[3]))
                 elif kind == "running":
